@@ -6,7 +6,8 @@ Each entry names a function (and its closures), the kind of fact, and the normal
   calls-own  the same, but only in the named function and its closures (for a callee the function's own helpers call as well);
   guarded  `callee <= cmp:<text>` / `callee <= call:<fn>`: every call of `callee` in the family is dominated by a branch on that comparison
            (either polarity) / on the result of a call to <fn>;
-  reads    the family reads the named struct field.
+  reads    the family reads the named struct field;
+  bytes    the function (or one of its promoted constants) contains the byte-string literal.
 These are necessary conditions only: the rule says that the guard exists and is wired to the same values, not that it is sufficient."""
 from .. import validation
 from ..facts import callee
@@ -63,6 +64,9 @@ TABLE = [
     (("C10",), "jxl_oxide::aux_box::AuxBoxList::handle_event", "calls", "AuxBoxReader::ensure_raw", "seed-C10g",
      "an uncompressed auxiliary box leaves the Init state at its start: a box without payload gets no data event, and finalize() turns a "
      "reader still in Init into NoData, so its type and (empty) payload would be lost"),
+    (("C10",), "jxl_bitstream::container::parse::ParseEvents::<'inner, 'buf>::emit_single", "bytes", 'b"jxl"', "seed-C10i",
+     "inside a brob box every inner type that starts with `jxl` is reserved, known to this decoder or not: the test compares the "
+     "three-byte prefix (a seeded change replaced it by the list of the four known jxl? types)"),
     (("C06",), "jxl_render::util::image_region_to_frame", "reads", "frame_type", "seed-C06h",
      "a ReferenceOnly frame is a patch / blending source whatever its save_before_ct bit says (the bit is only defaulted to true when "
      "absent), and reset_cache keeps its render handle across region changes: it has to be rendered in full"),
@@ -199,6 +203,22 @@ def run(ctx, pid):
             else:
                 ctx.bad(rid, key + "|missing", "the guard recorded for %s is gone from %s: a call of %s is not dominated by a branch on `%s`: %s"
                         % (defect, prefix, target, guard, why), fn=fam[0])
+            continue
+        if kind == "bytes":
+            cn = prefix.lstrip("<").split("::")[0]
+            cr_ = ctx.prog.crates.get(cn)
+            hit = False
+            for g in (cr_.fn_list if cr_ is not None else []):
+                if not g.path.startswith(prefix):
+                    continue
+                for blk in g.blocks:
+                    for st in blk[0]:
+                        if st[0] == "=" and st[2][0] == "use" and st[2][1][0] == "k" and str(st[2][1][1].get("s", "")) == text:
+                            hit = True
+            if hit:
+                ctx.ok(rid, key, "%s (%s)" % (why, defect), nontrivial=True, fn=fam[0])
+            else:
+                ctx.bad(rid, key + "|missing", "the guard recorded for %s is gone from %s (byte-string constant %s): %s" % (defect, prefix, text, why), fn=fam[0])
             continue
         if kind == "calls-own":
             fam = [f for f in fam if f.path.startswith(prefix)]
